@@ -1084,6 +1084,18 @@ class Flow(object):
             ])
 
     # -- proving --------------------------------------------------------------------
+    def demod(self, p):
+        """``p`` with every remainder by a positive constant written through
+        the quotient: e % d == e - d * (e // d)."""
+        m = {}
+        for a in p.atoms():
+            info = self.atom_info.get(a)
+            if info and info[0] == "mod" and info[2].is_const() and \
+                    info[2].const_value() > 0:
+                m[a] = info[1] - self.fdiv(info[1], info[2]) * \
+                    info[2].const_value()
+        return p.subst(m) if m else p
+
     def prove(self, node, goals, extra=(), nonneg=(), integer=True,
               use_facts=True):
         """Do the facts dominating ``node`` (plus ``extra`` constraints) entail
